@@ -551,6 +551,17 @@ impl<'a> Local<'a> {
             self.outcomes.insert(name.to_string(), 1);
         }
     }
+    /// `n` cases with the same outcome (hot loops count per block and report once)
+    pub fn outcome_n(&mut self, name: &str, n: u64) {
+        if n == 0 {
+            return;
+        }
+        if let Some(c) = self.outcomes.get_mut(name) {
+            *c += n;
+        } else {
+            self.outcomes.insert(name.to_string(), n);
+        }
+    }
     /// outcome plus a sample kept for the first case of each outcome class
     pub fn outcome_with(&mut self, name: &str, case: impl FnOnce() -> Value) {
         if !self.outcomes.contains_key(name) {
